@@ -349,21 +349,42 @@ theorem digit_facts (c : UInt8) (h : isDigit c = true) :
   obtain ⟨⟨⟨⟨⟨a, b⟩, c'⟩, d⟩, e⟩, f⟩ := this
   exact ⟨a, b, c', d, e, f⟩
 
+/-- the bytes that may follow an unsigned integer directly: a space or one of the punctuation marks `,` `:` `?` -/
+def isNumSep (d : UInt8) : Bool := d == 32 || d == 44 || d == 58 || d == 63
+
+/-- what may follow an unsigned integer: end of input or such a byte -/
+def SepN (r : Bytes) : Prop := r = [] ∨ ∃ d r', r = d :: r' ∧ isNumSep d = true
+
+theorem Sep.toN {r : Bytes} (h : Sep r) : SepN r := by
+  rcases h with h | ⟨r', h⟩
+  · exact Or.inl h
+  · exact Or.inr ⟨32, r', h, rfl⟩
+
+theorem numSep_facts (d : UInt8) (h : isNumSep d = true) :
+    isDigit d = false ∧ d ≠ 88 ∧ d ≠ 120 ∧ d ≠ 66 ∧ d ≠ 98 ∧ d ≠ 46 ∧ d ≠ 69 ∧ d ≠ 101 ∧ d ≠ 100 ∧ d ≠ 68 ∧ d ≠ 102 ∧ d ≠ 70 := by
+  unfold isNumSep at h
+  simp only [Bool.or_eq_true, beq_iff_eq] at h
+  rcases h with ((rfl | rfl) | rfl) | rfl <;> decide
+
 /-- **an unsigned integer is lexed as one number** spanning exactly its digits -/
-theorem parseNumber_good (w r : Bytes) (hw : GoodNum w) (hr : Sep r) :
+theorem parseNumber_good (w r : Bytes) (hw : GoodNum w) (hr : SepN r) :
     parseNumber (w ++ r) = .ok { tok := { cat := 49, pos := 0, len := clip w.length, val := w.take (clip w.length) },
                                  next := w.length } := by
   obtain ⟨hne, hall⟩ := hw
   have hlen : 1 ≤ w.length := length_pos_of_ne_nil hne
   have hl0 : 0 < (w ++ r).length := by simp; omega
-  have hspn := spn_run isDigit w r hall hr space_facts.2
-  -- the byte right after the digits, if any, is a space
-  have hafter : ∀ x, (w ++ r)[w.length]? = some x → x = 32 := by
+  have hspn : spn isDigit (w ++ r) = w.length := by
+    rcases hr with rfl | ⟨d, r', rfl, hd⟩
+    · simp [spn_all isDigit w hall]
+    · exact spn_append_stop isDigit w d r' hall (numSep_facts d hd).1
+  -- the byte right after the digits, if any, is a separator
+  have hafter : ∀ x, (w ++ r)[w.length]? = some x → isNumSep x = true := by
     intro x hx
     rw [List.getElem?_append_right (Nat.le_refl _), Nat.sub_self] at hx
-    rcases hr with rfl | ⟨r', rfl⟩
+    rcases hr with rfl | ⟨d, r', rfl, hd⟩
     · simp at hx
-    · simpa using hx.symm
+    · have : x = d := by simpa using hx.symm
+      exact this ▸ hd
   unfold parseNumber
   simp only [at'_ok hl0, bind, Except.bind, pure, Except.pure]
   -- no `0x` / `0b` prefix
@@ -381,8 +402,8 @@ theorem parseNumber_good (w r : Bytes) (hw : GoodNum w) (hr : Sep r) :
           have := digit_facts _ (List.all_eq_true.mp hall _ hm)
           exact ⟨this.1, this.2.1, this.2.2.1, this.2.2.2.1⟩
         · have e1 : w.length = 1 := by omega
-          have := hafter (w ++ r)[1] (by rw [e1]; exact getElem_of _ 1 h1)
-          rw [this]; decide
+          have := numSep_facts _ (hafter (w ++ r)[1] (by rw [e1]; exact getElem_of _ 1 h1))
+          exact ⟨this.2.1, this.2.2.1, this.2.2.2.1, this.2.2.2.2.1⟩
       have e1 : ((w ++ r)[1] == 88 || (w ++ r)[1] == 120) = false := by simp [hx.1, hx.2.1]
       have e2 : ((w ++ r)[1] == 66 || (w ++ r)[1] == 98) = false := by simp [hx.2.2.1, hx.2.2.2]
       simp only [e1, e2, Bool.false_eq_true, ↓reduceIte]
@@ -392,25 +413,27 @@ theorem parseNumber_good (w r : Bytes) (hw : GoodNum w) (hr : Sep r) :
     unfold numDot
     simp only [g, andM, toBool, byteIs, bind, Except.bind, pure, Except.pure]
     by_cases hlt : w.length < (w ++ r).length
-    · have := hafter _ (getElem_of _ _ hlt)
-      have e : ((w ++ r)[w.length] == 46) = false := by rw [this]; decide
+    · have := numSep_facts _ (hafter _ (getElem_of _ _ hlt))
+      have e : ((w ++ r)[w.length] == 46) = false := beq_eq_false_iff_ne.mpr this.2.2.2.2.2.1
       simp only [hlt, decide_true, ↓reduceIte, at'_ok hlt, e, Bool.false_eq_true]
     · simp only [hlt, decide_false, Bool.false_eq_true, ↓reduceIte]
   have hexp : numExp (w ++ r) w.length = .ok (w.length, false, false) := by
     unfold numExp
     simp only [bind, Except.bind, pure, Except.pure]
     by_cases hlt : w.length < (w ++ r).length
-    · have := hafter _ (getElem_of _ _ hlt)
-      have e : ((w ++ r)[w.length] == 69 || (w ++ r)[w.length] == 101) = false := by rw [this]; decide
+    · have := numSep_facts _ (hafter _ (getElem_of _ _ hlt))
+      have e : ((w ++ r)[w.length] == 69 || (w ++ r)[w.length] == 101) = false := by
+        rw [beq_eq_false_iff_ne.mpr this.2.2.2.2.2.2.1, beq_eq_false_iff_ne.mpr this.2.2.2.2.2.2.2.1]; rfl
       simp only [hlt, ↓reduceIte, at'_ok hlt, e, Bool.false_eq_true]
     · simp only [hlt, ↓reduceIte]
   have hsuf : numSuffix (w ++ r) w.length = .ok w.length := by
     unfold numSuffix
     simp only [bind, Except.bind, pure, Except.pure]
     by_cases hlt : w.length < (w ++ r).length
-    · have := hafter _ (getElem_of _ _ hlt)
+    · have := numSep_facts _ (hafter _ (getElem_of _ _ hlt))
       have e : ((w ++ r)[w.length] == 100 || (w ++ r)[w.length] == 68 || (w ++ r)[w.length] == 102 || (w ++ r)[w.length] == 70) = false := by
-        rw [this]; decide
+        rw [beq_eq_false_iff_ne.mpr this.2.2.2.2.2.2.2.2.1, beq_eq_false_iff_ne.mpr this.2.2.2.2.2.2.2.2.2.1,
+          beq_eq_false_iff_ne.mpr this.2.2.2.2.2.2.2.2.2.2.1, beq_eq_false_iff_ne.mpr this.2.2.2.2.2.2.2.2.2.2.2]; rfl
       simp only [hlt, ↓reduceIte, at'_ok hlt, e, Bool.false_eq_true]
     · simp only [hlt, ↓reduceIte]
   simp only [hdot, Bool.false_eq_true, ↓reduceIte, hexp, hsuf, Bool.false_and]
@@ -661,7 +684,7 @@ theorem runP_good (flags : Nat) (w r : Bytes) (hw : GoodWord w ∨ GoodNum w) (h
     have hd := dispatch_digit c (List.all_eq_true.mp hw.2 c hcm)
     unfold runP
     rw [hd]
-    exact parseNumber_good w r hw hr
+    exact parseNumber_good w r hw hr.toN
 
 /-- the part of a variable after its `@`: an identifier, possibly with dots (`host.tld`) -/
 def isVarBodyByte (c : UInt8) : Bool := isWordByteB c || c == 46
@@ -762,6 +785,7 @@ inductive Txt : Bytes → Prop
   | dotted {w r : Bytes} : GoodDotted w → Sep r → Txt r → Txt (w ++ r)
   | dottedAt {w r : Bytes} {sp : UInt8} : GoodDotted w → isSepByte sp = true → Txt (sp :: r) → Txt (w ++ sp :: r)
   | punct {p : UInt8} {r : Bytes} : (p = 44 ∨ p = 63) → Txt r → Txt (p :: r)
+  | numAt {w r : Bytes} {sp : UInt8} : GoodNum w → isNumSep sp = true → Txt (sp :: r) → Txt (w ++ sp :: r)
   | colon {r : Bytes} : Txt r → Txt (58 :: 32 :: r)
 
 theorem goodTok_benign (cat : UInt8) (w : Bytes) (h : cat = 110 ∧ GoodWord w ∨ cat = 49 ∧ GoodNum w) (p : Nat) :
@@ -954,6 +978,34 @@ theorem tokLoop_txt (fuel : Nat) : ∀ (s : State), Txt (s.input.drop s.pos) →
       simp only [hne0, ↓reduceIte]
       refine ⟨true, _, rfl, ?_, rfl, rfl, rfl, rfl, fun _ => ⟨{ goodTok 110 w with pos := (goodTok 110 w).pos + s.pos },
         by simp [List.getElem?_set, hc], dottedTok_benign w hw _⟩⟩
+      show Txt (s.input.drop (s.pos + w.length))
+      rw [drop_add_of _ _ _ _ hd]; exact hr
+    | @numAt w r sp hw hsp hr =>
+      have hwl : 1 ≤ w.length := length_pos_of_ne_nil hw.1
+      have hlt : s.pos < s.input.length := by
+        rcases Nat.lt_or_ge s.pos s.input.length with hl | hg
+        · exact hl
+        · rw [List.drop_of_length_le hg] at hd
+          have := congrArg List.length hd
+          simp at this
+      have hl0 : 0 < (s.input.drop s.pos).length := by rw [hd]; simp; omega
+      have hwr : 0 < (w ++ sp :: r).length := by simp; omega
+      have hcm : (w ++ sp :: r)[0]'hwr ∈ w := by
+        have h1 : (w ++ sp :: r)[0]? = w[0]? := List.getElem?_append_left (by omega)
+        rw [List.getElem?_eq_getElem hwr] at h1
+        exact List.mem_of_getElem? h1.symm
+      have hdisp := dispatch_digit _ (List.all_eq_true.mp hw.2 _ hcm)
+      have hrun : parseNumber (w ++ sp :: r) = .ok { tok := goodTok 49 w, next := w.length } :=
+        parseNumber_good w (sp :: r) hw (Or.inr ⟨sp, r, rfl, hsp⟩)
+      have h0 : (s.input.drop s.pos)[0] = (w ++ sp :: r)[0]'hwr := by simp [hd]
+      simp only [hlt, ↓reduceIte, sliceFrom_ok s.input s.pos (Nat.le_of_lt hlt), at'_ok hl0, h0, hdisp,
+        bind, Except.bind, pure, Except.pure, runP]
+      rw [hd, hrun]
+      simp only [tvSet_ok s s.cur _ hc]
+      have hne0 : (({ goodTok 49 w with pos := (goodTok 49 w).pos + s.pos } : Token).cat != 0) = true := rfl
+      simp only [hne0, ↓reduceIte]
+      refine ⟨true, _, rfl, ?_, rfl, rfl, rfl, rfl, fun _ => ⟨{ goodTok 49 w with pos := (goodTok 49 w).pos + s.pos },
+        by simp [List.getElem?_set, hc], goodTok_benign 49 w (Or.inr ⟨rfl, hw⟩) _⟩⟩
       show Txt (s.input.drop (s.pos + w.length))
       rw [drop_add_of _ _ _ _ hd]; exact hr
     | @punct p r hp hr =>
